@@ -230,6 +230,7 @@ tp_valid_agree!(tp_valid_agree_3, 3, 6);
 
 
 vharness! {
+    //@ twin_replay: yes
     //@ props: C18
     //@ tier: quick
     //@ stubs: yes
